@@ -134,7 +134,10 @@ func e2Session(args []string) int {
 		ctl.mark("PHASE open-done")
 		// sync mode: the last session of every second run is driven by three CONCURRENT clients that own disjoint keys
 		// (per key the calls stay ordered, so the per-key oracle is unchanged); everything else about the session is the same
-		if *mode == "sync" && !*big && !*bigSync && s == sessions-1 && *seed%2 == 0 {
+		if (*mode == "sync" || *mode == "async") && !*big && !*bigSync && s == sessions-1 && *seed%2 == 0 {
+			for i, k := range keys {
+				ctl.mark("OWNER %s %d", hex.EncodeToString([]byte(k)), i%3)
+			}
 			ctl.mark("PHASE concurrent-clients")
 			var wg sync.WaitGroup
 			var next int64 = int64(opIdx)
@@ -496,12 +499,28 @@ type e2State struct {
 	// async bookkeeping: number of ops acknowledged when the most recent WAL file was created
 	ackedCount      int
 	ackedAtWal      int
-	concurrent      int // sessions driven by concurrent clients
+	walAcked        map[int]bool   // indexes of the ops that were acknowledged when the most recent WAL file was created
+	concStart       int            // index of the first op of the concurrent-clients phase (-1: not begun)
+	owner           map[string]int // hex key -> client that owns it in the concurrent-clients phase
+	concurrent      int            // sessions driven by concurrent clients
 	maxInflight     int
 	opErrUnexpected []string
 }
 
-func newE2State() *e2State { return &e2State{model: map[string]*string{}} }
+func newE2State() *e2State {
+	return &e2State{model: map[string]*string{}, concStart: -1, owner: map[string]int{}, walAcked: map[int]bool{}}
+}
+
+// noteWalCreated remembers which operations were acknowledged at the moment the newest WAL file appeared
+func (s *e2State) noteWalCreated() {
+	s.ackedAtWal = s.ackedCount
+	s.walAcked = map[int]bool{}
+	for i, op := range s.ops {
+		if op.Done {
+			s.walAcked[i] = true
+		}
+	}
+}
 
 func (s *e2State) marker(m string) {
 	f := strings.SplitN(m, " ", 5)
@@ -558,6 +577,7 @@ func (s *e2State) marker(m string) {
 			s.faulted = false
 		case "concurrent-clients":
 			s.concurrent++
+			s.concStart = len(s.ops)
 		case "close-failed-after-fault":
 			s.closing--
 		case "close-begin":
@@ -576,8 +596,15 @@ func (s *e2State) marker(m string) {
 		case "compaction.reflected":
 			s.compE++
 		}
+	case "OWNER":
+		if len(f) >= 3 {
+			var cl int
+			fmt.Sscan(f[2], &cl)
+			s.owner[f[1]] = cl
+		}
 	case "SESSION":
 		s.session = m
+		s.concStart = -1
 		// a synchronous session on a direct-I/O WAL may refuse its writes (documented limitation of that writer)
 		s.refusing = strings.Contains(m, "async=false directIOWAL=true")
 	case "FATAL":
@@ -662,6 +689,10 @@ type e2Job struct {
 	// async: admissible prefixes (each a model) — expectA is then the full-ack model and prefixes holds all models p=L..n
 	prefixes  []map[string]*string
 	minPrefix int
+	// async session driven by concurrent clients: if no whole-state prefix fits, every client's own keys must read as
+	// the state at the begin of the phase plus some prefix of THAT client's calls (clients own disjoint keys)
+	clientKeys     [][]string
+	clientPrefixes [][]map[string]*string
 }
 
 type e2Verdict struct {
@@ -751,9 +782,38 @@ func e2Judge(job e2Job, keys []string, rbuf, wbuf uint64, hashVals bool, c *fw.C
 				return nil
 			}
 		}
+		if job.clientPrefixes != nil {
+			all := true
+			for cl := range job.clientPrefixes {
+				fits := false
+				for _, pm := range job.clientPrefixes[cl] {
+					ok := true
+					for _, k := range job.clientKeys[cl] {
+						if !sameVal(out.Reads[k], pm[k]) {
+							ok = false
+							break
+						}
+					}
+					if ok {
+						fits = true
+						break
+					}
+				}
+				if !fits {
+					all = false
+					break
+				}
+			}
+			if all {
+				return nil
+			}
+		}
 		var d []string
 		for _, k := range keys {
 			d = append(d, fmt.Sprintf("%s=%s", showKey(k), showVal(out.Reads[k])))
+		}
+		if job.clientPrefixes != nil {
+			tail = "/concurrent-clients" + tail
 		}
 		return &e2Verdict{"crash/async-content-is-no-admissible-prefix" + tail, fmt.Sprintf("recovered content equals no prefix p of the acknowledged sequence with p >= %d (operations before the last rotation) on %s\ncontent: %s", job.minPrefix, where, strings.Join(d, " "))}
 	}
@@ -986,7 +1046,7 @@ func e2RunSession(c *fw.Case, cfg e2Config) *e2Summary {
 			}
 		}
 		if cfg.mode == "async" {
-			fmt.Fprintf(h, "L%d-%d", st.ackedAtWal, len(st.ops))
+			fmt.Fprintf(h, "L%d-%d-%d", st.ackedAtWal, len(st.ops), len(st.walAcked))
 		}
 		key := hex.EncodeToString(h.Sum(nil)[:12])
 		if seen[key] {
@@ -1007,7 +1067,9 @@ func e2RunSession(c *fw.Case, cfg e2Config) *e2Summary {
 			return
 		}
 		job := e2Job{seq: ev.Seq, variant: variant, dir: d, phase: st.phase(), after: ev.Call + ":" + pathPattern(ev.Path), expectA: copyModel(expA), expectAF: expAF, inflight: infl, listing: rp.Listing()}
-		if cfg.mode == "async" {
+		if cfg.mode == "async" && st.concStart >= 0 {
+			e2ConcurrentPrefixes(st, &job, sum.keys)
+		} else if cfg.mode == "async" {
 			// admissible prefixes: every p with ackedAtWal <= p <= number of invoked operations
 			job.minPrefix = st.ackedAtWal
 			m := map[string]*string{}
@@ -1039,7 +1101,7 @@ func e2RunSession(c *fw.Case, cfg e2Config) *e2Summary {
 			case "marker":
 				st.marker(ev.Marker)
 			case "walcreate":
-				st.ackedAtWal = st.ackedCount
+				st.noteWalCreated()
 			case "mutation":
 				emit(ev, "", nil)
 				if ev.Call == "unlink" && len(rp.UnlinkRun) >= 2 {
@@ -1075,6 +1137,79 @@ func e2RunSession(c *fw.Case, cfg e2Config) *e2Summary {
 	close(jobs)
 	wg.Wait()
 	return sum
+}
+
+// e2ConcurrentPrefixes fills in the admissible states of an asynchronous session whose last phase is driven by
+// concurrent clients. Operations before the phase form one sequence (whole-state prefixes, admissible only while no
+// call of the phase is known to be durable); inside the phase the log order across clients is not observable, so each
+// client's keys are judged against the prefixes of that client's own call sequence.
+func e2ConcurrentPrefixes(st *e2State, job *e2Job, keys []string) {
+	C := st.concStart
+	seqMin, concDurable := 0, false
+	for i := range st.ops {
+		if st.walAcked[i] {
+			if i < C {
+				seqMin = i + 1
+			} else {
+				concDurable = true
+			}
+		}
+	}
+	job.minPrefix = seqMin
+	m := map[string]*string{}
+	job.prefixes = []map[string]*string{}
+	for i := 0; i <= C && i <= len(st.ops); i++ {
+		if i >= seqMin && i < C && !concDurable {
+			job.prefixes = append(job.prefixes, copyModel(m))
+		}
+		if i < C && i < len(st.ops) {
+			if op := st.ops[i]; !(op.Done && op.Err) {
+				e2Apply(m, op)
+			}
+		}
+	}
+	base := m // state after every call before the phase
+	nclients := 0
+	for _, cl := range st.owner {
+		if cl+1 > nclients {
+			nclients = cl + 1
+		}
+	}
+	job.clientKeys = make([][]string, nclients)
+	job.clientPrefixes = make([][]map[string]*string, nclients)
+	for _, k := range keys {
+		if cl, ok := st.owner[k]; ok {
+			job.clientKeys[cl] = append(job.clientKeys[cl], k)
+		}
+	}
+	for cl := 0; cl < nclients; cl++ {
+		cm := map[string]*string{}
+		for _, k := range job.clientKeys[cl] {
+			cm[k] = base[k]
+		}
+		// the client's calls in its program order; everything up to its last durable call is mandatory
+		var mine []int
+		last := -1
+		for i := C; i < len(st.ops); i++ {
+			if c2, ok := st.owner[st.ops[i].K]; ok && c2 == cl {
+				if st.walAcked[i] {
+					last = len(mine)
+				}
+				mine = append(mine, i)
+			}
+		}
+		if last < 0 {
+			job.clientPrefixes[cl] = append(job.clientPrefixes[cl], copyModel(cm))
+		}
+		for n, i := range mine {
+			if op := st.ops[i]; !(op.Done && op.Err) {
+				e2Apply(cm, op)
+			}
+			if n >= last {
+				job.clientPrefixes[cl] = append(job.clientPrefixes[cl], copyModel(cm))
+			}
+		}
+	}
 }
 
 // e2NewestWalIsCut tells (with the harness's own layout parser) whether the newest WAL file of the current
